@@ -45,11 +45,16 @@ import (
 	"sigs.k8s.io/controller-runtime/pkg/webhook"
 	"sigs.k8s.io/yaml"
 
+	corev1 "k8s.io/api/core/v1"
+
 	xpcontroller "github.com/crossplane/crossplane-runtime/pkg/controller"
 	"github.com/crossplane/crossplane-runtime/pkg/logging"
 	xpresource "github.com/crossplane/crossplane-runtime/pkg/resource"
 	"github.com/crossplane/crossplane-runtime/pkg/resource/unstructured/composed"
+	ucomposite "github.com/crossplane/crossplane-runtime/pkg/resource/unstructured/composite"
 
+	apiextv1 "github.com/crossplane/crossplane/apis/apiextensions/v1"
+	xrcomposite "github.com/crossplane/crossplane/internal/controller/apiextensions/composite"
 	usagectl "github.com/crossplane/crossplane/internal/controller/apiextensions/usage"
 	usagewebhook "github.com/crossplane/crossplane/internal/usage"
 	"github.com/crossplane/crossplane/internal/verifkit"
@@ -1019,6 +1024,104 @@ func (w *world) composerApply(us usageSpec) {
 		}
 	}
 }
+
+// ---------------------------------------------------------------------------
+// the composers' garbage collection of composed resources whose template is gone
+
+const resourceNameAnnotation = "crossplane.io/composition-resource-name"
+
+func templateName(id int) string { return fmt.Sprintf("res-%d", id) }
+
+// composerClient is the composer's client: every write goes to the simulated
+// API server as actor "composer" (the marker monitors watch all of them) and
+// every DELETE takes the same admission path as any other client's DELETE
+// (usage.yaml selector/rules, the real handler, clauses 1 and 2).
+type composerClient struct {
+	client.Client
+	w *world
+}
+
+func (c composerClient) Delete(_ context.Context, obj client.Object, opts ...client.DeleteOption) error {
+	do := client.DeleteOptions{}
+	do.ApplyOptions(opts)
+	gvk := obj.GetObjectKind().GroupVersionKind()
+	key := verifsim.Key{Group: gvk.Group, Kind: gvk.Kind, Namespace: obj.GetNamespace(), Name: obj.GetName()}
+	return c.w.checkedDelete("composer", key, gvk.Version, do.PropagationPolicy).err
+}
+
+// composedBy returns the pool resources controlled by the XR stand-in owner.
+func (w *world) composedBy(owner string) []int {
+	uid := fmt.Sprint(w.ownerRef(owner)["uid"])
+	var out []int
+	for i, id := range idents {
+		if o := w.sim.Get(id.key()); o != nil && verifsim.ControllerUID(o) == uid && verifsim.Annotations(o)[resourceNameAnnotation] != "" {
+			out = append(out, i)
+		}
+	}
+	return out
+}
+
+// composerGC runs the real garbage collection of a composer for the XR stand-in
+// owner whose spec.resourceRefs name every pool resource it controls, after the
+// Composition stopped producing the resources in drop. pipeline=false: the P&T
+// composer's GarbageCollectingAssociator.AssociateTemplates with named
+// templates; pipeline=true: the function composer's
+// DeletingComposedResourceGarbageCollector.
+func (w *world) composerGC(owner string, drop map[int]bool, version string, pipeline bool) {
+	ctx := context.Background()
+	ref := w.ownerRef(owner)
+	xr := ucomposite.New()
+	xr.SetAPIVersion("example.org/v1")
+	xr.SetKind(ownerKind)
+	xr.SetName(owner)
+	xr.SetUID(types.UID(fmt.Sprint(ref["uid"])))
+	cc := composerClient{Client: w.sim.Client("composer"), w: w}
+	mode := "pt"
+	if pipeline {
+		mode = "pipeline"
+	}
+	var refs []corev1.ObjectReference
+	ct := []apiextv1.ComposedTemplate{{Name: ptrTo("always-there")}}
+	observed, desired := xrcomposite.ComposedResourceStates{}, xrcomposite.ComposedResourceStates{}
+	var dropped []string
+	for _, i := range w.composedBy(owner) {
+		id := idents[i]
+		refs = append(refs, corev1.ObjectReference{APIVersion: id.Group + "/" + version, Kind: id.Kind, Name: id.Name})
+		cd := composed.New(composed.FromReference(refs[len(refs)-1]))
+		if err := cc.Get(ctx, types.NamespacedName{Name: id.Name}, cd); err != nil {
+			w.fail("VERIF-INCONCLUSIVE harness: get composed: %v", err)
+		}
+		name := xrcomposite.ResourceName(verifsim.Annotations(w.sim.Get(id.key()))[resourceNameAnnotation])
+		observed[name] = xrcomposite.ComposedResourceState{Resource: cd}
+		if !drop[i] {
+			ct = append(ct, apiextv1.ComposedTemplate{Name: ptrTo(string(name))})
+			desired[name] = xrcomposite.ComposedResourceState{Resource: cd}
+			continue
+		}
+		dropped = append(dropped, id.key().String())
+		prot, namers, _ := w.usagesOf(id.key(), verifsim.MetaString(w.sim.Get(id.key()), "uid"))
+		switch {
+		case len(prot) > 0:
+			w.nontrivial = true
+			w.rec.Labelf("composer-gc(%s):of-a-protected-resource", mode)
+		case len(namers) > 0:
+			w.rec.Labelf("composer-gc(%s):of-a-named-unprotected-resource", mode)
+		default:
+			w.rec.Labelf("composer-gc(%s):of-an-unused-resource", mode)
+		}
+	}
+	xr.SetResourceReferences(refs)
+	var err error
+	if pipeline {
+		err = xrcomposite.NewDeletingComposedResourceGarbageCollector(cc).GarbageCollectComposedResources(ctx, xr, observed, desired)
+	} else {
+		_, err = xrcomposite.NewGarbageCollectingAssociator(cc, cc).AssociateTemplates(ctx, xr, ct)
+	}
+	w.logf("COMPOSER-GC(%s) xr=%s refs=%d dropped=%v -> %v", mode, owner, len(refs), dropped, err)
+	w.checkMonitors("during the " + mode + " composer's garbage collection")
+}
+
+func ptrTo[T any](v T) *T { return &v }
 
 func sortedKeys(m map[string]usageSpec) []string {
 	out := make([]string, 0, len(m))
